@@ -1,0 +1,161 @@
+//go:build verif
+
+package cosmos
+
+// Contracts for the deductive checker in /verif (comment-only; compiled only with -tags verif).
+// C07 "fee floor", Cosmos route: fee check against the validator's minimum gas prices, priority, fee deduction.
+// Lib specs: /verif/specs/c07 (bank model), /verif/specs/c07f.
+
+/*@
+// ------------------------------------------------------------------ priority
+// the code's fold over the fee coins: a running value of 0 is replaced by the next price, otherwise the smaller one is kept
+ghost func CPrio(fees Coins, gas int, i int) int
+    def ite(i <= 0, 0, ite(CPrio(fees, gas, i-1) == 0 || cap64(goquo(coins_at(fees, i-1).Amount, gas)) < CPrio(fees, gas, i-1),
+            cap64(goquo(coins_at(fees, i-1).Amount, gas)), CPrio(fees, gas, i-1)))
+
+func getTxPriority
+    requires gas: gas > 0 || coins_len(fees) == 0
+    ensures fold: result == CPrio(fees, gas, coins_len(fees))
+    ensures none: coins_len(fees) == 0 ==> result == 0
+    // one fee denomination (all that MinGasPriceDecorator lets through): the gas price, capped at MaxInt64
+    ensures single: coins_len(fees) == 1 ==> result == cap64(goquo(coins_at(fees, 0).Amount, gas))
+    ensures bounds: 0 <= result && result <= 9223372036854775807
+    loop 1 invariant idx: 0 <= #i && #i <= coins_len(fees)
+    loop 1 invariant fold: priority == CPrio(fees, gas, #i) && 0 <= priority && priority <= 9223372036854775807
+
+// ------------------------------------------------------------------ validator minimum gas prices
+// FeeCovers / CoversMin: /verif/specs/c07f/70_fees.spec
+func checkFeeCoinsAgainstMinGasPrices
+    rawslice requiredFees
+    let mgp = ctx_mingasprices(ctx)
+    requires gasfits: gas <= 9223372036854775807
+    ensures iff: (result == nil) == FeeCovers(mgp, feeCoins, gas)
+    loop 1 invariant idx: 0 <= #i && #i <= len(mgp) && len(requiredFees) == len(mgp) && glDec == dec_of(gas)
+    loop 1 invariant req: forall k int :: 0 <= k && k < #i ==> requiredFees[k].Denom == mgp[k].Denom
+            && requiredFees[k].Amount == ceil_fee(mgp[k].Amount, gas)
+    loop 1 back use DecMulInt(mgp[#i - 1].Amount, gas)
+
+func checkTxFeeWithValidatorMinGasPrices
+    let fee = feetx_fee(feeTx)
+    let gas = feetx_gas(feeTx)
+    requires gasfits: gas <= 9223372036854775807
+    requires gas: gas > 0 || coins_len(fee) == 0
+    ensures refused: (result.2 != nil) == (ctx_ischeck(ctx) && !FeeCovers(ctx_mingasprices(ctx), fee, gas))
+    ensures accepted: result.2 == nil ==> result.0 == fee && result.1 == CPrio(fee, gas, coins_len(fee))
+    ensures failed: result.2 != nil ==> ciszero(result.0) && result.1 == 0
+// ------------------------------------------------------------------ fee deduction
+// The fee goes from the account's own address to the fee collector - exactly `fees`, on top of whatever the reward claim did
+// (the claim runs only when the balance in the staking denomination does not cover the fee; see ClaimStakingRewardsIfNecessary).
+func deductFeesFromBalanceOrUnclaimedStakingRewards
+    let A = acci_addr(deductFeesFromAcc)
+    let bond = sk_bonddenom(dfd.stakingKeeper, ctx)
+    let need = fees[sk_bonddenom(dfd.stakingKeeper, ctx)]
+    let have = old(bank_bal)[acc_of_bytes(acci_addr(deductFeesFromAcc))][sk_bonddenom(dfd.stakingKeeper, ctx)]
+    let base = ite(need != 0 && 0 <= have && have < need,
+                   claim_bank(old(bank_bal), old(distr_st), old(auth_accs), ctx, A, bond, need - have), old(bank_bal))
+    requires keepers: dfd.bankKeeper != nil && dfd.stakingKeeper != nil && deductFeesFromAcc != nil
+    modifies bank_bal, distr_st, auth_accs
+    ensures paid: result == nil ==> bank_bal == bal_move(base, acc_of_bytes(A), acc_of_module("fee_collector"), fees)
+    ensures paid_from_balance: result == nil && have >= need
+            ==> bank_bal == bal_move(old(bank_bal), acc_of_bytes(A), acc_of_module("fee_collector"), fees)
+    ensures wrong_denom: need == 0 ==> result != nil && bank_bal == old(bank_bal)
+    ensures failed: result != nil ==> bank_bal == base
+    call ClaimStakingRewardsIfNecessary requires own: addr == old(acci_addr(deductFeesFromAcc)) && amount == old(fees) && ctx == old(ctx)
+    call DeductFees requires own: acc == old(deductFeesFromAcc) && fees == old(fees) && ctx == old(ctx)
+
+// C07: a non-zero fee is taken from the fee payer - or from the fee granter once UseGrantedFees accepted exactly
+// (granter, payer, fee, msgs of this tx) - and arrives at the fee collector: exactly `fees`, from exactly that account. A missing
+// fee collector module account or a missing paying account is an error and moves nothing.
+func (DeductFeeDecorator).deductFee
+    let ak = dfd.accountKeeper
+    let from = ite(feeGranter != nil, feeGranter, feePayer)
+    let usegrant = feeGranter != nil && !bytes_eq(feeGranter, feePayer)
+    let allowed = fg_allows(old(feegrant_st), ctx, feeGranter, feePayer, fees, tx_msgs(sdkTx))
+    let bond = sk_bonddenom(dfd.stakingKeeper, ctx)
+    let need = fees[sk_bonddenom(dfd.stakingKeeper, ctx)]
+    let have = old(bank_bal)[acc_of_bytes(ite(feeGranter != nil, feeGranter, feePayer))][sk_bonddenom(dfd.stakingKeeper, ctx)]
+    let base = ite(need != 0 && 0 <= have && have < need,
+                   claim_bank(old(bank_bal), old(distr_st), old(auth_accs), ctx, from, bond, need - have), old(bank_bal))
+    requires keepers: dfd.accountKeeper != nil && dfd.bankKeeper != nil && dfd.stakingKeeper != nil && sdkTx != nil
+    modifies bank_bal, feegrant_st, distr_st, auth_accs
+    ensures zero_fee: ciszero(fees) ==> result == nil && bank_bal == old(bank_bal) && feegrant_st == old(feegrant_st)
+            && distr_st == old(distr_st) && auth_accs == old(auth_accs)
+    ensures no_collector: !ciszero(fees) && ak_modaddr(ak, "fee_collector") == nil ==> result != nil && bank_bal == old(bank_bal)
+            && feegrant_st == old(feegrant_st) && distr_st == old(distr_st) && auth_accs == old(auth_accs)
+    ensures grants_disabled: !ciszero(fees) && feeGranter != nil && dfd.feegrantKeeper == nil ==> result != nil && bank_bal == old(bank_bal)
+    ensures grant_refused: !ciszero(fees) && usegrant && !allowed ==> result != nil && bank_bal == old(bank_bal)
+            && feegrant_st == old(feegrant_st)
+    ensures no_account: !ciszero(fees) && old(ak_account(dfd.accountKeeper, ctx, ite(feeGranter != nil, feeGranter, feePayer))) == nil
+            ==> result != nil && bank_bal == old(bank_bal)
+    ensures paid: result == nil && !ciszero(fees)
+            ==> bank_bal == bal_move(base, acc_of_bytes(from), acc_of_module("fee_collector"), fees)
+    ensures paid_from_balance: result == nil && !ciszero(fees) && have >= need
+            ==> bank_bal == bal_move(old(bank_bal), acc_of_bytes(from), acc_of_module("fee_collector"), fees)
+    ensures grant_used: result == nil && !ciszero(fees) && usegrant ==> dfd.feegrantKeeper != nil && allowed
+            && feegrant_st == fg_use(old(feegrant_st), ctx, feeGranter, feePayer, fees, tx_msgs(sdkTx))
+    ensures grant_untouched: ciszero(fees) || !usegrant ==> feegrant_st == old(feegrant_st)
+    ensures failed_bank: result != nil ==> bank_bal == old(bank_bal) || bank_bal == base
+    call UseGrantedFees requires exact: granter == old(feeGranter) && grantee == old(feePayer) && fee == old(fees)
+            && msgs == old(tx_msgs(sdkTx)) && ctx == old(ctx)
+    call deductFeesFromBalanceOrUnclaimedStakingRewards requires from_payer: acci_addr(deductFeesFromAcc) == old(ite(feeGranter != nil, feeGranter, feePayer))
+            && fees == old(fees) && ctx == old(ctx) && dfd == old(dfd)
+// C07, the decorator: outside simulation the fee and the priority are the checker's; the rest of the chain (`next`) runs only
+//  - with a positive gas limit (outside simulation and the genesis block),
+//  - after the checker accepted the transaction,
+//  - after exactly that fee moved from the fee payer (or the granter, once the grant of (granter, payer, fee, msgs) was used) to
+//    the fee collector, on top of whatever the reward claim did,
+//  - with the same tx / simulate flag and the context carrying the checker's priority.
+func (DeductFeeDecorator).AnteHandle
+    let isfee = implements(tx, "github.com/cosmos/cosmos-sdk/types.FeeTx")
+    let G = feetx_gas(tx)
+    let fee = ite(simulate, feetx_fee(tx), ret(txFeeChecker, 1, 0))
+    let prio = ite(simulate, 0, ret(txFeeChecker, 1, 1))
+    let payer = feetx_payer(tx)
+    let granter = feetx_granter(tx)
+    let from = ite(feetx_granter(tx) != nil, feetx_granter(tx), feetx_payer(tx))
+    let usegrant = feetx_granter(tx) != nil && !bytes_eq(feetx_granter(tx), feetx_payer(tx))
+    let bond = sk_bonddenom(dfd.stakingKeeper, old(ctx))
+    let need = fee[sk_bonddenom(dfd.stakingKeeper, old(ctx))]
+    let have = old(bank_bal)[acc_of_bytes(from)][sk_bonddenom(dfd.stakingKeeper, old(ctx))]
+    let base = ite(need != 0 && 0 <= have && have < need,
+                   claim_bank(old(bank_bal), old(distr_st), old(auth_accs), old(ctx), from, bond, need - have), old(bank_bal))
+    requires keepers: dfd.accountKeeper != nil && dfd.bankKeeper != nil && dfd.stakingKeeper != nil && tx != nil
+    requires height: ctx_height(ctx) >= 0
+    // the transaction passed ValidateBasicDecorator (earlier in the chain): gas limit at most MaxInt64, no negative fee coin
+    requires validated: feetx_gas(tx) <= 9223372036854775807 && cnonneg(feetx_fee(tx))
+    // genesis transactions (height 0) are exempt from the positive-gas rule; one with gas 0 must not carry a fee (the
+    // priority computation divides the fee by the gas limit - observation O1 in REPORT.md)
+    requires genesis_gas: ctx_height(ctx) == 0 && !simulate ==> feetx_gas(tx) > 0 || coins_len(feetx_fee(tx)) == 0
+    modifies bank_bal, feegrant_st, distr_st, auth_accs
+    // the checker is a function value that only reads state (both implementations are verified without `modifies`)
+    call txFeeChecker contract github.com/haqq-network/haqq/app/ante/utils.TxFeeChecker
+    call txFeeChecker requires args: !old(simulate) && ctx == old(ctx) && feeTx == old(tx)
+    call txFeeChecker requires gas_positive: ctx_height(old(ctx)) == 0 || feetx_gas(old(tx)) > 0
+    call deductFee requires exact: fees == fee && feePayer == old(feetx_payer(tx)) && feeGranter == old(feetx_granter(tx))
+            && sdkTx == old(tx) && ctx == old(ctx) && dfd == old(dfd)
+    call deductFee requires untouched: bank_bal == old(bank_bal) && feegrant_st == old(feegrant_st) && distr_st == old(distr_st)
+            && auth_accs == old(auth_accs)
+    call deductFee requires checked: !old(simulate) ==> ret(txFeeChecker, 1, 2) == nil
+    call next requires gas_positive: old(simulate) || ctx_height(old(ctx)) == 0 || feetx_gas(old(tx)) > 0
+    call next requires checked: !old(simulate) ==> ret(txFeeChecker, 1, 2) == nil
+    call next requires same: tx == old(tx) && simulate == old(simulate) && ctx == ctx_withpriority(old(ctx), prio)
+    call next requires paid: !ciszero(fee) ==> bank_bal == bal_move(base, acc_of_bytes(from), acc_of_module("fee_collector"), fee)
+    call next requires paid_from_balance: !ciszero(fee) && have >= need
+            ==> bank_bal == bal_move(old(bank_bal), acc_of_bytes(from), acc_of_module("fee_collector"), fee)
+    call next requires free: ciszero(fee) ==> bank_bal == old(bank_bal) && feegrant_st == old(feegrant_st)
+    call next requires collector: !ciszero(fee) ==> ak_modaddr(dfd.accountKeeper, "fee_collector") != nil
+            && old(ak_account(dfd.accountKeeper, ctx, ite(feetx_granter(tx) != nil, feetx_granter(tx), feetx_payer(tx)))) != nil
+    call next requires grant: !ciszero(fee) && usegrant ==> fg_allows(old(feegrant_st), old(ctx), granter, payer, fee, tx_msgs(old(tx)))
+            && feegrant_st == fg_use(old(feegrant_st), old(ctx), granter, payer, fee, tx_msgs(old(tx)))
+    call next requires nogrant: !usegrant ==> feegrant_st == old(feegrant_st)
+    // ---- and the results (a contract of call-site clauses alone would not notice a skipped call)
+    ensures not_feetx: !isfee ==> result.1 != nil && result.0 == ctx && bank_bal == old(bank_bal) && feegrant_st == old(feegrant_st)
+    ensures no_gas: isfee && !simulate && ctx_height(ctx) > 0 && G <= 0 ==> result.1 != nil && result.0 == ctx
+            && bank_bal == old(bank_bal) && feegrant_st == old(feegrant_st)
+    ensures checker_refused: isfee && !simulate && !(ctx_height(ctx) > 0 && G <= 0) && ret(txFeeChecker, 1, 2) != nil
+            ==> result.1 == ret(txFeeChecker, 1, 2) && result.0 == ctx && bank_bal == old(bank_bal) && feegrant_st == old(feegrant_st)
+    ensures deduct_failed: isfee && (simulate || !(ctx_height(ctx) > 0 && G <= 0)) && (simulate || ret(txFeeChecker, 1, 2) == nil)
+            && ret(deductFee, 1, 0) != nil ==> result.1 != nil && result.0 == ctx
+    ensures passed_on: isfee && (simulate || !(ctx_height(ctx) > 0 && G <= 0)) && (simulate || ret(txFeeChecker, 1, 2) == nil)
+            && ret(deductFee, 1, 0) == nil ==> result.0 == ret(next, 1, 0) && result.1 == ret(next, 1, 1)
+@*/
